@@ -161,6 +161,9 @@ _add("C03", H("H03_dv", quick={"wall": "140s", "shards": 8, "param": "maxDocs=1,
 _add("C05", H("H05_merge", quick={"wall": "150s", "shards": 16, "param": "maxDocs=1,tieReopen=1,maxOcc=1,nInputs=3,fieldVar=1,always=1,storeAll=1,symTyp=0,fixAP=1"}, thorough={"skip": True}))
 _add("C02", H("H05_merge", quick={"wall": "150s", "shards": 16, "param": "maxDocs=1,tieReopen=1,maxOcc=1,nInputs=3,fieldVar=1,always=1,storeAll=1,symTyp=0,fixAP=1,noDrops=1"}, thorough={"skip": True}))
 
+# two vector fields with different metrics in one segment, both orders of the builder's field map
+_add("C14", H("H14_metrics", common={"vectors": True}), H("H14_metrics", common={"vectors": True, "reverse-maps": True}))
+
 # thorough wall budgets: the first budgeted run of a property gets 600 s, the others 240 s (a thorough check
 # also repeats the quick configurations, which are exhaustive inside their bounds)
 for _pid in PLAN:
